@@ -43,12 +43,6 @@ package ggql
 //@   requires recv != nil
 //@   requires t != nil && ptrval(t) != 0
 
-//@ func (*Root).validateDirUse
-//@   props C03
-//@   check panic {C03}
-//@   requires recv != nil
-//@   requires du != nil
-
 //@ func (*Root).ReplaceRefs
 //@   props C03
 //@   check panic {C03}
@@ -59,18 +53,6 @@ package ggql
 //@   check panic {C03}
 //@   requires recv != nil
 //@   requires t != nil && ptrval(t) != 0
-
-//@ func (*Root).replaceListRefs
-//@   props C03
-//@   check panic {C03}
-//@   requires recv != nil
-//@   requires list != nil
-
-//@ func (*Root).replaceNonNullRefs
-//@   props C03
-//@   check panic {C03}
-//@   requires recv != nil
-//@   requires nn != nil
 
 //@ func (*Root).replaceFieldRefs
 //@   props C03
